@@ -203,6 +203,9 @@ pub const F20: &str = "F20-blind-zero-value";
 pub const F21: &str = "F21-verify-zero-issuance";
 pub const F22: &str = "F22-surjection-inputs-abort";
 pub const F23: &str = "F23-rangeproof-full-range";
+pub const F24: &str = "F24-remove-count-underflow";
+pub const F25: &str = "F25-serde-taptree-serialize";
+pub const F26: &str = "F26-serde-hexbytes-capacity";
 /// input class of F18 at the PSET level: some input/output map carries a commitment-typed proprietary field
 /// (input: issuance value / inflation keys commitment; output: value / asset commitment) whose value is not 33 bytes long
 fn pset_short_commitment(b: &[u8]) -> bool {
@@ -864,6 +867,11 @@ fn explore_pset(p: &Pset) {
     let _ = a.merge(p.clone());
 }
 
+/// PSET decoding: Vec::with_capacity(count) for inputs and outputs behind the 10 000 caps (10 000 * size_of::<Input>() is 13.8 MB, reserved
+/// before the first input is read), one pending key and one pending value of at most MAX_VEC_SIZE each, one nested consensus object
+fn pset_bound(n: usize) -> u64 {
+    10_000 * (std::mem::size_of::<pset::Input>() + std::mem::size_of::<pset::Output>()) as u64 + 4 * elements::encode::MAX_VEC_SIZE as u64 + 4096 * n as u64 + 65536
+}
 fn eval_explore_case(case: &str) -> Out {
     let w: Vec<&str> = case.split(' ').collect();
     eval_explore(w.get(1).copied().unwrap_or(""), &w)
@@ -876,8 +884,7 @@ fn eval_explore(kind: &str, w: &[&str]) -> Out {
             let (r, obs) = guard(|| deserialize::<Pset>(&b));
             let mut obs2 = Obs::default();
             if let Some(Ok(p)) = &r { let (_, o) = guard(|| explore_pset(p)); obs2 = o; }
-            // decoding: 10 000-entry count caps on inputs/outputs, MAX_VEC_SIZE on every key and value, nesting depth <= 3
-            let bound = 3 * elements::encode::MAX_VEC_SIZE as u64 + 4_000_000 + 4096 * b.len() as u64;
+            let bound = pset_bound(b.len());
             let mut all = obs.clone(); all.panics.extend(obs2.panics);
             finish(if matches!(r, Some(Ok(_))) { "total+".into() } else { "total".into() }, &all, None, Some(bound))
         }
@@ -887,7 +894,7 @@ fn eval_explore(kind: &str, w: &[&str]) -> Out {
             let (r, obs) = guard(|| Pset::from_str(&s));
             let mut all = obs.clone();
             if let Some(Ok(p)) = &r { let (_, o) = guard(|| explore_pset(p)); all.panics.extend(o.panics); }
-            finish("total".into(), &all, None, Some(3 * elements::encode::MAX_VEC_SIZE as u64 + 4_000_000 + 4096 * s.len() as u64))
+            finish("total".into(), &all, None, Some(pset_bound(s.len())))
         }
         "x-merge" => {
             if w.len() != 4 { return Out::ok("harnesserr args".into()); }
@@ -980,6 +987,39 @@ fn eval_explore(kind: &str, w: &[&str]) -> Out {
             let Ok(out) = deserialize::<TxOut>(&serialize(&out)).map(|mut o: TxOut| { o.witness = out.witness.clone(); o }) else { return Out::ok("harnesserr wire".into()) };
             let (_, obs) = guard(|| { let _ = out.unblind(secp, recv_sk); });
             finish("total".into(), &obs, Some((F23, "secp256k1-zkp", "attempt to add with overflow")), None)
+        }
+        "x-remove" => {
+            // F24: remove_input / remove_output decrement the global counters unchecked; the counters are public fields
+            if w.len() != 3 { return Out::ok("harnesserr args".into()); }
+            let reset = w[2] == "1";
+            let mut p = Pset::new_v2();
+            p.add_input(pset::Input::from_prevout(OutPoint::new(txid(1), 0)));
+            p.add_output(pset::Output::new_explicit(Script::new(), 5, asset(3), None));
+            if reset { p.global.tx_data = Default::default(); }       // the counters (private) fall back to 0 while the vectors hold one element each
+            let (_, obs) = guard(|| { let mut q = p.clone(); let _ = q.remove_input(0); let mut q = p.clone(); let _ = q.remove_output(0); let mut q = p.clone(); let _ = q.remove_input(7); let _ = q.remove_output(7); });
+            finish("total".into(), &obs, if reset { Some((F24, "src/pset/mod.rs", "attempt to subtract with overflow")) } else { None }, Some(1 << 20))
+        }
+        "x-serde-taptree" => {
+            // F25: TapTree derives Deserialize without the is_complete test of from_inner; serialising such a tree hits unreachable!()
+            if w.len() != 3 { return Out::ok("harnesserr args".into()); }
+            let json = match w[2] { "empty" => r#"{"branch":[]}"#, "null" => r#"{"branch":[null]}"#, _ => return Out::ok("harnesserr pattern".into()) };
+            let (_, obs) = guard(|| {
+                if let Ok(t) = serde_json::from_str::<pset::TapTree>(json) {
+                    let mut p = Pset::new_v2();
+                    p.add_output(pset::Output::new_explicit(Script::new(), 5, asset(3), None));
+                    p.outputs_mut()[0].tap_tree = Some(t);
+                    let _ = serialize(&p);
+                }
+            });
+            finish("total".into(), &obs, Some((F25, "src/pset/serialize.rs", "entered unreachable code")), Some(1 << 20))
+        }
+        "x-cbor-params" => {
+            // F26: dynafed's hex-bytes visitor reserves Vec::with_capacity(size_hint) — the CBOR array header is believed
+            if w.len() != 3 { return Out::ok("harnesserr args".into()); }
+            let Some(b) = unhex_dash(w[2]) else { return Out::ok("harnesserr hex".into()) };
+            let huge = b.windows(9).any(|x| x[0] == 0x9b && u64::from_be_bytes(x[1..9].try_into().unwrap()) > (1 << 62));
+            let (_, obs) = guard(|| { let _ = serde_cbor::from_slice::<elements::dynafed::Params>(&b); let _ = serde_cbor::from_slice::<BlockHeader>(&b); });
+            finish("total".into(), &obs, if huge { Some((F26, "alloc/src/raw_vec", "capacity overflow")) } else { None }, Some(small_bound(b.len()) + (1 << 20)))
         }
         "x-text" => {
             if w.len() != 3 { return Out::ok("harnesserr args".into()); }
